@@ -192,3 +192,10 @@ Proof.
   intros Ha. unfold inline_table. cbn [sort_comps fold_right].
   apply flat_occ_insert_declining, Ha.
 Qed.
+
+(* C12: every statement found by the typed scan of the current source is on the reviewed list,
+   and the scan had no type-checking problem that could hide one *)
+Require GM.gen.WriteSites GM.model.WriteSitesReviewed.
+Lemma write_sites_all_reviewed :
+  WriteSitesReviewed.sites_reviewed WriteSites.write_sites WriteSites.write_scan_problems = true.
+Proof. vm_compute. reflexivity. Qed.
